@@ -78,6 +78,13 @@ def add_worlds(ck, pid, seed, cfg, n):
     """run n worlds of this family into an existing Check (used by function-level checks too)"""
     results = run_tasks(eval_task, tasks_for(pid, seed, cfg, n))
     absorb(ck, results, cfg)
+    # DESIGN §5: correspondence broken, no oracle failure yet -> search further for a failing input
+    if ck.disagreements and not ck.violations:
+        before = len(ck.disagreements)
+        extra = run_tasks(eval_task, [{"pid": pid, "seed": seed + 7919, "i": i, "cfg": cfg} for i in range(min(4 * n, 3000))])
+        absorb(ck, extra, cfg)
+        ck.extra["failing_input_search"] = {"extra_worlds": len(extra), "found": len(ck.violations),
+                                            "disagreements_before": before, "disagreements_after": len(ck.disagreements)}
 
 
 def replay_family(pid, path, cfg):
